@@ -256,6 +256,9 @@ func c01Eval(ctx *engine.Ctx, u *c01Univ, dir string, iss, sub int, chain []int,
 			audTag = "/aud-set"
 		}
 		mk := func() *c01Case { return &c01Case{Iss: iss, Sub: sub, Chain: append([]int{}, chain...)} }
+		if dir == "sound" && mask != 0 && aud < 0 {
+			oddHooksRefuse(ctx, mk(), inv, u.loader, "rules {"+ruleNames(mask)+"} are violated")
+		}
 		for k, e := range []error{e1, e2} {
 			api := [2]string{"ExecutionAllowed", "ExecutionAllowedWithArgsHook"}[k]
 			if dir == "sound" && e == nil && mask != 0 {
